@@ -335,3 +335,33 @@ for _pid, _p in PROPS.items():
     if not any(s["build"] == "release" for s in _p["stages"]):
         _main = [s for s in _p["stages"] if s["name"] == "main"][0]
         _p["stages"].append({"name": "release", "build": "release", "bin": _main["bin"]})
+
+# What was added to each monitor after the seeded-change campaign (DESIGN.md section 13); appended to
+# the level text so that MANIFEST.json describes the checks as they are now.
+_ADDED = {
+    "C01": "Also: every numeric literal of dasp_sample's sources (with neighbours and re-based twins) as input; the to_signed_sample route for the six unsigned formats.",
+    "C02": "Also: inputs on and next to every rounding boundary of the target float format (where correct rounding differs from truncation and from rounding twice), source literals as inputs, the to_float_sample route.",
+    "C03": "Also: subnormal / negative-zero / MIN_POSITIVE samples and tiny gains; iterator-protocol conformance (nth, fold, count, last, skip, step_by, size_hint, len, next_back, rev vs plain next) of channels / channels_ref / channels_mut for every (format, N).",
+    "C04": "Also: delays of 2^32, 2^32+1 and usize::MAX frames; eleven adaptor kinds each driven for 2^32+4096 frames (frame-by-frame comparison, source pull counts at the end).",
+    "C05": "Also: huge delays; take(n) for n around every integer-width boundary (len/size_hint count down from n); iterator-protocol conformance of the interleaved-sample iterator, take and until_exhausted over every tree.",
+    "C06": "Also: indices and set_first arguments around every integer-width boundary; ring buffers over calloc-backed storage of 2^32+r elements (sparse model); Extend through iterators with exact, absent and loose size hints; iterator-protocol conformance of iter() and drain() from every small state.",
+    "C07": "Also: a Sum node with 300 / 1 500 / 5 000 / 70 000 incoming edges in steady state; a bus output dropped while its thread unwinds from a caught panic.",
+    "C08": "Also: the content of every output while the ratio swings between < 1 and > 1, and panic guards that turn a panic inside the converter into a violation instead of a dead stage.",
+    "C09": "Also: one node fed by 257 ... 4 097 (thorough 70 000) different nodes through a processor created with a small capacity; a probe node that panics inside process, then a fully checked call on the same processor.",
+    "C10": "Also: views over i8 buffers of 2^32+d samples (calloc-backed) for ten widths, shared / mutable / boxed; zip_map_in_place between frame types of different channel counts.",
+    "C11": "Also: the zeroed window is handed over at a rotation derived from the case (Fixed::from_raw_parts(k, ..)).",
+    "C12": "Also: a fork over a ring buffer of 2^32+r frames with leads up to 190; the ring starts at a non-zero offset; by_rc with either handle dropped at every point of every schedule of length 10.",
+    "C13": "Also: every sequence containing a drop is run a second time with each drop happening while the thread unwinds from a caught panic.",
+    "C14": "Also: batch-only histories first (they cannot hang); iterator-protocol conformance of next_frames() from every (capacity, start, prefill, lead) state.",
+    "C15": "Also: source literals as operands; operands solved for so that the exact product / sum / difference is congruent to a range boundary modulo 2^BITS, any number of periods away.",
+    "C16": "Also: signal nodes whose signal is a chain of real adaptors over a finite source (exhaustion hint set while frames are still non-zero), compared with an identical twin stepped directly; delay rings handed over rotated.",
+    "C17": "Also: white noise over 2^31 (thorough 2^35) consecutive (seed + frame) values per run, extremes reported; frequency signals that are the sum of two finite signals (hint set, frames non-zero).",
+    "C18": "Also: zeroed rings handed over rotated; reset while still priming, with zeroed and with dirty rings.",
+    "C19": "Also: attack/release times of -0.0, subnormal, MIN_POSITIVE, 1e30 and f32::MAX; loud / quiet / exact-silence / quiet patterns with a 2^15 level ratio; RMS windows handed over rotated.",
+    "C20": "Also: hops around every integer-width boundary; each (L, bin, hop) state also reached by assigning the public fields after construction; iterator-protocol conformance of Window, Windower and the chunk iterator.",
+}
+_ALL = ("Every property additionally runs its main workload on a stock release build (assertions and overflow checks off). "
+        "Violations are written to a side-car file as they are observed, so a stage that later hangs or crashes still delivers them.")
+for _pid, _p in PROPS.items():
+    if _pid in _ADDED and _ADDED[_pid] not in _p.get("level_text", ""):
+        _p["level_text"] = _p.get("level_text", "") + " " + _ADDED[_pid] + " " + _ALL
